@@ -34,7 +34,7 @@ fn case(rng: &mut Rng, release: bool) -> String {
     dev.set_station_address(0x1000);
     dev.sii.err_bits = 0;
     dev.sii.read8 = rng.chance(1, 2);
-    let stay_busy = rng.chance(1, 25);
+    let mut stay_busy = rng.chance(1, 25);
     dev.sii.busy_polls = if stay_busy { 1_000_000_000 } else { *rng.pick(&[0u32, 0, 1, 3]) };
     let image = dev.eeprom.clone();
     let read8 = dev.sii.read8;
@@ -45,6 +45,11 @@ fn case(rng: &mut Rng, release: bool) -> String {
     let errors = if op >= 6 && op <= 10 { match rng.below(5) { 0 => rng.range(19, 25) as u32, 1 => rng.range(1, 5) as u32, _ => 0 } } else { 0 };
     let word = if (6..=9).contains(&op) { word.min(ilen as u16 / 2 - 4) } else { word };
     seg.devices[0].sii.write_cmd_errors = errors;
+    // failing alias updates are the interesting ones for the reported alias: make them common
+    if op == 10 && !stay_busy && rng.chance(1, 3) {
+        stay_busy = true;
+        seg.devices[0].sii.busy_polls = 1_000_000_000;
+    }
     let mut log = Vec::new();
     let n = match rng.below(6) { 0 => rng.range(30, 120) as usize, 1 => 1, _ => rng.range(0, 24) as usize };
     let val = rng.next();
@@ -76,8 +81,9 @@ fn case(rng: &mut Rng, release: bool) -> String {
         Ok(_) => "\"res\":\"HANG\"".to_string(),
     };
     let d = &seg.devices[0];
-    format!("{{\"kind\":\"dev\",\"release\":{},\"cs\":{},\"img\":\"{}\",\"fill\":255,\"patches\":[],\"op\":{},\"busy_polls\":{},\"stay_busy\":{},\"cmd_errors\":{},\"cmd_errors_left\":{},{},\"out\":{:?},\"after\":\"{}\",\"writes\":[{}],\"frames\":{}}}",
-        release, if read8 { 8 } else { 4 }, hex(&image), opname, d.sii.busy_polls.min(9), stay_busy, errors, d.sii.write_cmd_errors, res, out, hex(&d.eeprom),
+    let alias_reported = sd.alias_address();
+    format!("{{\"kind\":\"dev\",\"alias_reported\":{},\"release\":{},\"cs\":{},\"img\":\"{}\",\"fill\":255,\"patches\":[],\"op\":{},\"busy_polls\":{},\"stay_busy\":{},\"cmd_errors\":{},\"cmd_errors_left\":{},{},\"out\":{:?},\"after\":\"{}\",\"writes\":[{}],\"frames\":{}}}",
+        alias_reported, release, if read8 { 8 } else { 4 }, hex(&image), opname, d.sii.busy_polls.min(9), stay_busy, errors, d.sii.write_cmd_errors, res, out, hex(&d.eeprom),
         d.sii.writes.iter().map(|(a, w)| format!("[{},{},{}]", a, w[0], w[1])).collect::<Vec<_>>().join(","), log.len())
 }
 
